@@ -36,6 +36,7 @@ import (
 	"github.com/yandex/pandora/core/config"
 	coreimport "github.com/yandex/pandora/core/import"
 	"github.com/yandex/pandora/core/plugin"
+	"go.uber.org/zap"
 
 	"verifharness/internal/vt"
 )
@@ -328,6 +329,9 @@ func (e *cdEnv) decodeVia(via, shape, reg string, tree map[string]interface{}, l
 			if err := os.WriteFile(f, b, 0644); err != nil {
 				panic(err)
 			}
+			// readConfig installs a development logger as zap's global one; put the no-op logger back afterwards
+			// (the hooks log at debug level through zap.L())
+			defer zap.ReplaceGlobals(zap.NewNop())
 			conf = cli.VerifReadConfig([]string{f})
 			out = "ok"
 			return
@@ -433,7 +437,7 @@ func confdecodeMain(args []string) {
 		}
 		set := entries(delta["set"])
 		kind := vt.Str(c["kind"])
-		e.placeholder("VERIF_PH", vt.Str(line["phval"]), vt.Bool(c["set"]) && (kind == "ph" || kind == "emb"))
+		e.placeholder("VERIF_PH", vt.Str(line["phval"]), vt.Bool(c["set"]) && (kind == "ph" || kind == "emb" || kind == "emblist"))
 		emit := func(via, shape, reg string) {
 			tree := build(base, set, del, e.props)
 			o, got, errText, _ := e.decodeVia(via, shape, reg, tree, v.leaves)
@@ -449,7 +453,8 @@ func confdecodeMain(args []string) {
 		}
 		// the real constructors: outcome only; not for placeholder cases (they change file names the real
 		// providers open) and not for the scenario variant (providers parse the scenario file)
-		if v.name != "V3" && kind != "ph" && kind != "emb" && (i+seed)%*realStride == 0 {
+		// ... and not for out-of-range values: a constructor fed a value its validation should have stopped may not return
+		if v.name != "V3" && kind != "ph" && kind != "emb" && kind != "emblist" && kind != "phnokey" && kind != "range" && (i+seed)%*realStride == 0 {
 			emit("decode", "viper", "real")
 		}
 	}
